@@ -28,10 +28,11 @@ func rbody(c rscen, ctx *hk.Ctx) {
 		ctx.Fail("C16:setup", "%v", err)
 		return
 	}
-	// two reports are prepared sequentially: five packets each, 1 ms apart, growing queueing delay in the second
+	// two reports are prepared sequentially: six packets each, 10 ms apart (one arrival group per packet, so that
+	// the delay controller publishes estimates), growing queueing delay in the second
 	sys.hold = true
 	for _, pat := range []int{0, 3} {
-		if err := sys.send(5, time.Millisecond); err != nil {
+		if err := sys.send(6, 10*time.Millisecond); err != nil {
 			ctx.Fail("C16:setup", "%v", err)
 			return
 		}
@@ -46,6 +47,7 @@ func rbody(c rscen, ctx *hk.Ctx) {
 		return
 	}
 	vsched.Quiesce()
+	vsched.SetupDone() // the twelve packets and the two reports above are a fixed prefix
 	var errs [2]error
 	fb := vsched.GoApp("feedback", func() {
 		for n, l := range sys.held {
@@ -100,9 +102,10 @@ func rbody(c rscen, ctx *hk.Ctx) {
 }
 
 func rscenarios(tier string) []rscen {
-	b := 3
+	// executions are long (twelve packets and two reports pass through the estimator's goroutine pipeline)
+	b := 2
 	if tier == "thorough" {
-		b = 4
+		b = 3
 	}
 	return []rscen{{"recording", "twcc", b}, {"recording", "ccfb", b}, {"leaky", "twcc", b}}
 }
